@@ -6404,7 +6404,15 @@ fn eval_expr(
                     ExpressionState::EvaluatedSubexpressions,
                     Rc::clone(&outer_expr),
                 );
-                eval_match_cases(env, expr_value_is_used, &scrutinee.position, cases)?;
+                if let Err(e) =
+                    eval_match_cases(env, expr_value_is_used, &scrutinee.position, cases)
+                {
+                    // No case was started. Take the continuation
+                    // back, so the caller can put this expression
+                    // back as it found it.
+                    env.current_frame_mut().exprs_to_eval.pop();
+                    return Err(e);
+                }
             }
             ExpressionState::EvaluatedSubexpressions => {
                 env.current_frame_mut().bindings.pop_block();
@@ -6424,13 +6432,19 @@ fn eval_expr(
                     Rc::clone(&outer_expr),
                 );
 
-                eval_if(
+                if let Err(e) = eval_if(
                     env,
                     expr_value_is_used,
                     &condition.position,
                     then_body,
                     else_body.as_ref(),
-                )?;
+                ) {
+                    // No branch was started. Take the continuation
+                    // back, so the caller can put this expression
+                    // back as it found it.
+                    env.current_frame_mut().exprs_to_eval.pop();
+                    return Err(e);
+                }
             }
             ExpressionState::EvaluatedSubexpressions => {
                 env.current_frame_mut().bindings.pop_block();
